@@ -95,7 +95,7 @@ func decodeWithContext(
 		// DecodeError use the opaque type.
 		return nil
 	}
-	if len(m.Tags) == 0 && len(redactedTags) == 0 {
+	if len(m.Tags) == 0 {
 		// There are no tags stored. Either there are no tags stored, or
 		// we received some new version of the protobuf message which does
 		// things differently. Again, use the opaque type.
